@@ -59,6 +59,12 @@ theorem stopSets_have_newline :
     '\n' ∈ D2V.Gen.ParserSites.topStops ∧ '\n' ∈ D2V.Gen.ParserSites.dashStops ∧ '\n' ∈ D2V.Gen.ParserSites.edgeGroupStops := by
   decide
 
+/-- parser and printer agree on what is special in a key: every rune at which the parser ends an unquoted key is
+    in d2ast.UnquotedKeySpecials (both lists regenerated from the source) -/
+theorem key_stops_are_specials :
+    ∀ c ∈ D2V.Gen.ParserSites.topStops ++ D2V.Gen.ParserSites.keyStops, c ∈ D2V.Gen.ParserSites.unquotedKeySpecials := by
+  decide
+
 /-! ### from the program logic to the entry points -/
 
 theorem safe_run {α : Type} {c : Cfg} {ok : Crash → Prop} {f : P α} {Q : α → Prop} (h : Safe c ok f Q)
